@@ -35,11 +35,11 @@ ANCHORS = ['debian.arfile:ArFile.__collect_members', 'debian.arfile:ArMember.fro
            'debian.arfile:ArMember.readline', 'debian.arfile:ArMember.readlines', 'debian.arfile:ArMember.seek',
            'debian.arfile:ArMember.tell', 'debian.arfile:ArFile.getmember']
 MUST_REACH = ANCHORS
-FLOORS = {'quick': {'nontrivial': 800, 'monitors': {'M.op': 30000, 'K9': 10000, 'M.listing': 1000},
+FLOORS = {'quick': {'nontrivial': 800, 'monitors': {'M.op': 30000, 'K9': 10000, 'M.listing': 1000, 'M.listing-again': 1000},
                     'counters': {'fileobj-kind:tempfile': 450, 'fileobj-kind:rawio': 450, 'fileobj-kind:fdopen': 450, 'fileobj-kind:unlinked': 450, 'fileobj-kind:replaced': 450,
                                  'archive-object-dropped-before-reads': 2400, 'filename:members-dropped-unclosed': 1300,
                                  'filename:path_reuse': 1300, 'filename:twin': 650, 'op-through-twin': 4000}},
-          'thorough': {'nontrivial': 40000, 'monitors': {'M.op': 1500000, 'K9': 500000, 'M.listing': 50000},
+          'thorough': {'nontrivial': 40000, 'monitors': {'M.op': 1500000, 'K9': 500000, 'M.listing': 50000, 'M.listing-again': 50000},
                        'counters': {'fileobj-kind:tempfile': 45000, 'fileobj-kind:rawio': 45000, 'fileobj-kind:fdopen': 45000, 'fileobj-kind:unlinked': 45000, 'fileobj-kind:replaced': 45000,
                                     'archive-object-dropped-before-reads': 120000, 'filename:members-dropped-unclosed': 65000,
                                     'filename:path_reuse': 65000, 'filename:twin': 32000, 'op-through-twin': 200000}}}
@@ -298,6 +298,32 @@ def _history(ctx, case, holder, members, ops, raw, tf):
     live = ar.getmembers()
     if len(live) != len(members) or [m.name for m in ar] != names:
         ctx.violation('listing-differs', 'getmembers()/iteration disagree with packed table')
+        return
+    # the listing is a value, not a cursor: two iterations advanced alternately, an iteration abandoned half-way, a
+    # returned list of names changed by the caller - the next listing is complete and in order all the same
+    ctx.mon('M.listing-again')
+    it1, it2 = iter(ar), iter(ar)
+    seen1, seen2 = [], []
+    for _ in range(len(members) + 1):
+        for it, seen in ((it1, seen1), (it2, seen2)):
+            try:
+                seen.append(next(it).name)
+            except StopIteration:
+                pass
+    half = iter(ar)
+    for _ in range(len(members) // 2):
+        next(half)
+    del half
+    # (getmembers() hands out the archive's own list, as tarfile.getmembers() does: changing THAT list is the caller
+    # changing the archive object - established on the unchanged tree, not driven; the list of names is a fresh one)
+    handed_names = ar.getnames()
+    if len(members) % 2:
+        handed_names.append('caller-added')
+        handed_names.reverse()
+    if seen1 != names or seen2 != names or ar.getnames() != names or [m.name for m in ar.getmembers()] != names \
+            or [m.name for m in ar] != names or any(a is not b for a, b in zip(ar.getmembers(), live)):
+        ctx.violation('listing-differs-after-earlier-listings', 'interleaved %r / %r, then getnames()=%r getmembers()=%r, packed %r'
+                      % (seen1, seen2, ar.getnames(), [m.name for m in ar.getmembers()], names))
         return
     for m, want in zip(live, members):
         got = (m.name, m.size, m.owner, m.group, m.mtime)
